@@ -186,6 +186,22 @@ func runC34(c *Ctx) {
 		c.Check(w == nil && len(ldup) > 0, "emitted-left-not-recorded", "a departure that was already announced is not recorded again", c.P.Pos(tl.Decl.Pos()), lf.describe(w))
 	})
 
+	c.Rule("epoch-sets-only-grow", func() {
+		// the per-epoch dedup of rebalance notifications is a set that only grows: forgetting an epoch lets a late duplicate
+		// of its notification be taken for the first one (pending events would be emitted a second time)
+		for _, name := range []string{"rebalanceStartSeen", "rebalanceCompleteSeen"} {
+			fv := c.Field("internal/cluster", "cluster", name)
+			ws := c.fieldWrites(fv)
+			for _, w := range ws {
+				ok := w.kind == "elem:lit" || w.kind == "make" || w.kind == "lit"
+				c.Check(ok, "epoch-set/"+name+"@"+w.fn()+"="+w.kind, "an epoch, once seen, stays in the set: entries are only added (the map is created once)", w.u.Where(c.P), "the set is modified by "+w.kind+" in "+w.fn())
+			}
+			if len(ws) < 1 {
+				c.Undecided("epoch-set/"+name+"/sites", "writes of the epoch set found", "-", "found none")
+			}
+		}
+	})
+
 	c.Rule("epoch-dedup", func() {
 		for _, pr := range []struct{ fn, fld string }{{"cluster.processRebalanceStart", "rebalanceStartSeen"}, {"cluster.processRebalanceComplete", "rebalanceCompleteSeen"}} {
 			fn := c.Func("internal/cluster", pr.fn)
